@@ -81,6 +81,10 @@ def run(ck, fb, fbd):
         return out
 
     mesh_classes = [c for c in fb.records if c == TK or c == RM or fb.derived_from(c, TK)]
+    # the property storages belong to the mesh state as well: a const read of a property must not write the storage
+    # object (e.g. un-sharing a copy-on-write buffer) - the handle classes reach it through a shared_ptr, which does not
+    # propagate const, so the compiler does not object
+    mesh_classes += [c for c in fb.records if c.startswith("OpenVolumeMesh::PropertyStorageT<") or c == "OpenVolumeMesh::PropertyStorageBase"]
     n_mut = n_static = n_cast = n_write = 0
     canary = {"mutable": False, "static": False, "constcast": False}
     for fid in pred:
@@ -122,8 +126,11 @@ def run(ck, fb, fbd):
                     canary["constcast"] = True
                     continue
                 ck.violate("C20.constcast", f.loc(f.line), "%s removes const with a %s cast to %s" % (f.pq.split("OpenVolumeMesh::")[-1][:60], n.get("ck"), n.get("t")), "C20.constcast:%s" % f.pq, detail={"chain": chain(fid)})
-            elif k in ("asg", "un"):
-                tgt = n.get("l") if k == "asg" else (n.get("x") if n.get("op") in ("pre++", "post++", "pre--", "post--") else None)
+            elif k in ("asg", "un") or (k == "call" and as_assign(n)):
+                if k == "call":
+                    tgt = as_assign(n)[0]
+                else:
+                    tgt = n.get("l") if k == "asg" else (n.get("x") if n.get("op") in ("pre++", "post++", "pre--", "post--") else None)
                 if tgt is None:
                     continue
                 t = unwrap(f.resolve(tgt))
